@@ -40,6 +40,46 @@ def projector(prop):
     return None  # model vs code: every record, byte for byte (incl. the rescan chatter and the console)
 
 
+CON_RE = re.compile(rb"^((?:\[[^\]]*\] )?[^:\s]*: )(.*)$", re.S)
+
+
+def case_projector(prop, case):
+    """model vs code: every record; the *text* of a message the daemon writes on its own account
+    (parse errors, 'Attaching ...') is wording no property speaks about, so such a line is compared
+    by where it went and under which facility and severity, not by what it says.  The messages the
+    case itself injects (`msg` ops) are compared byte for byte."""
+    tests = set()
+    for op in case.body():
+        f = op.split(" ")
+        if f[0] == "msg" and len(f) >= 4:
+            tests.add(_unhex(f[3]))
+
+    def neutral_file_line(b):
+        m = LINE_RE.match(b)
+        if m and m.group(3) not in tests:
+            return b"(" + m.group(1) + b":" + m.group(2) + b") *own*"
+        return b
+
+    def neutral_con(data):
+        out = []
+        for l in data.split(b"\n"):
+            m = CON_RE.match(l)
+            out.append(m.group(1) + b"*own*" if (m and m.group(2) not in tests) else l)
+        return b"\n".join(out)
+
+    def proj(i, rec):
+        if not isinstance(rec, str):
+            return rec
+        f = rec.split(" ")
+        if f[0] == "files":
+            files = parse_files(rec)
+            if files is None:
+                return rec
+            return ("files", tuple(sorted((n, tuple((mk, neutral_file_line(b)) for mk, b in ls)) for n, ls in files.items())))
+        return tuple(("con", neutral_con(_unhex(x[4:]))) if x.startswith("con=") else x for x in f)
+    return proj
+
+
 def spec_name(prop):
     return "Iauthd.Log.Spec.routes / onLoad / onMessage (reading of C18 over file contents)"
 
@@ -176,7 +216,7 @@ def is_chatter(fac, sev, text):
     return False
 
 
-def _norm_lines(lines, drop_chatter):
+def _norm_lines(lines, drop_chatter, tests=None):
     """-> (list of (fac_lower, sev, text) without adjacent repeats, problem|None)"""
     out = []
     for marker, b in lines:
@@ -186,7 +226,7 @@ def _norm_lines(lines, drop_chatter):
         if not m:
             return None, "line without (facility:severity) attribution: %r" % b[:80]
         fac, sev, text = m.group(1), m.group(2), m.group(3)
-        if drop_chatter and is_chatter(fac, sev, text):
+        if drop_chatter and (text not in tests if tests is not None else is_chatter(fac, sev, text)):
             continue
         item = (fac.lower(), sev, text)
         if out and out[-1] == item:
@@ -200,6 +240,8 @@ def judge(prop, case, ir, sr):
     if sr is None:
         return False
     ops = case.body()
+    # the messages the case injects; everything else in a file is the daemon's own chatter
+    tests = set(_unhex(o.split(" ")[3]) for o in ops if o.startswith("msg ") and len(o.split(" ")) >= 4)
     for i, op in enumerate(ops):
         rec = ir[i] if i < len(ir) else None
         if rec is None:
@@ -218,7 +260,7 @@ def judge(prop, case, ir, sr):
             return (i, "unreadable files record %r / %r" % (rec[:80], (sr[i] if i < len(sr) else None)))
         names = sorted(set(got) | set(exp))
         for n in names:
-            g, pb = _norm_lines(got.get(n, []), True)
+            g, pb = _norm_lines(got.get(n, []), True, tests)
             if pb:
                 return (i, "file %r: %s" % (n, pb))
             e, pb = _norm_lines(exp.get(n, []), False)
